@@ -289,14 +289,12 @@ class Check(PropertyCheck):
         return problems
 
     # ---------------------------------------------------------------- generation
+    # the extensions registered for auto-identification on writing (documented; fixed here, not learnt
+    # from the code under test)
+    WRITE_EXTS = {'ds9': ['.ds9', '.reg'], 'crtf': ['.crtf'], 'fits': ['.fits', '.fit', '.fts']}
+
     def _exts(self):
-        RR, Region, Regions = _registry()
-        out = {}
-        for fmt in FORMATS:
-            idf = RR.registry[(Regions, 'identify', fmt)]
-            cands = ['.ds9', '.reg', '.crtf', '.fits', '.fit', '.fts']
-            out[fmt] = [e for e in cands if idf('write', 'x' + e)]
-        return out
+        return {k: list(v) for k, v in self.WRITE_EXTS.items()}
 
     def generate(self, rng, tier):
         mult = 1 if tier == 'quick' else 8
@@ -744,6 +742,9 @@ class Check(PropertyCheck):
         # looked at for some shapes (CRTF radunit / fmt) are not in it.
         if case['inj'] == 'opts' and case['opts'] in MUST_FAIL[fmt] and len(case['items']) >= 1 and real['exc'] is None:
             bad('bad_option_accepted', 'the write went through although the option is invalid')
+        # a destination with a registered extension is identified (format inferred from the name)
+        if case['fmt_arg'] is None and resolvable and real.get('exc') == 'IORegistryError':
+            bad('registered_extension_not_identified', f'write to {name} with the format inferred raised IORegistryError')
         # clause 2: a write that raises, for whatever reason, leaves every path as it was
         if real['exc'] is not None and not real['unchanged']:
             bad('failed_write_changed_fs', 'the write raised but the directory changed')
